@@ -46,6 +46,14 @@ def run(ctx):
                        'handler may unregister a descriptor and register the same struct again, and what the wait reported for the old '
                        'registration would be recorded for the new one', floor=2)
     ctx.section(batch_fresh)
+    # floor: one obligation per poll method (4 on the reference tree; 2 array-slot methods at least, as R-C03e/R-C03f count)
+    ctx.rule('R-C03h', 'a failed try-registration leaves no trace in the back end: at every return of iv_fd_register_try (helpers and the '
+                       'poll method\'s slots inlined, per poll method) that can deliver a non-zero result, the descriptor owns no slot of the '
+                       'descriptor array (array-slot methods: index field as register_fd leaves it) and the library\'s record of what the kernel '
+                       'set holds for it is empty (kernel-set methods: registered_bands == 0) -- whatever was entered before the validity '
+                       'probe is removed again on failure; a slot that survives dispatches the handlers of an unregistered struct for '
+                       'whatever file later gets that descriptor number', floor=2)
+    ctx.section(failed_try)
 
 
 def _by_site(contexts):
@@ -651,3 +659,76 @@ def batch_fresh(ctx):
                       '%d make-ready operation(s); on no path did user code run between the kernel wait and one of them'
                       % len({e.get('loc') for e in uses}),
                path=path_to(g, bad[0][0]) if bad else None, fn=cq)
+
+
+TRY_REGISTER = 'iv_fd_register_try'       # exported API
+
+
+def _slot_methods(prog):
+    """{table: (index field keys, value of the index field of a descriptor without a slot)} of the poll methods that keep
+    descriptors in array slots (found as in R-C03e: by the type of the stored value; the free value is what register_fd stores)"""
+    out = {}
+    for t in sorted(prog.method_tables()):
+        fns = h03.table_functions(prog, t)
+        stores, idxkeys = [], set()
+        for slot, f in fns.items():
+            gs = h03.inlined(prog, f)
+            st = h03.slot_stores(gs)
+            if st:
+                stores += st
+                idxkeys |= h03.slot_index_fields(gs, st)
+        if not stores:
+            continue
+        if not idxkeys:
+            raise AnalysisBroken('%s: index field of the descriptor array slot not found' % t)
+        free = set()
+        if 'register_fd' in fns:
+            for e in h03.inlined(prog, fns['register_fd']).events():
+                if e['ev'] == 'store' and e.get('op') == '=' and 'rhs' in e and any(k in idxkeys for k in lvalue_steps(e['lhs'])):
+                    free.add(h03.const_value(e['rhs']))
+        if len(free) != 1 or None in free:
+            raise AnalysisBroken('%s: value of the slot index of a descriptor without a slot not found (register_fd stores %s)' % (t, sorted(map(str, free))))
+        out[t] = (idxkeys, free.pop())
+    return out
+
+
+def failed_try(ctx):
+    """R-C03h: per poll method, the try-registration entry point with the method's slots inlined; the states that reach a
+    return are (returned value is zero / non-zero / unknown, the back end holds nothing of the descriptor).  Every state that
+    can deliver a non-zero result must be clean."""
+    prog = ctx.prog
+    f = prog.fn(TRY_REGISTER)
+    slotm = _slot_methods(prog)
+    kern = set(h03.kernel_tables(prog))
+    unknown = h03.unknown_code(prog)
+    n = 0
+    for t in sorted(prog.method_tables()):
+        if t in slotm:
+            keys, clean = slotm[t]
+            what = 'owns no slot of the descriptor array (%s == %d, what register_fd leaves there)' % ('/'.join(sorted(k[1] for k in keys)), clean)
+            inst = 'failed-try:slot iv_fd_.poll.fds[] [%s]' % t.replace('iv_fd_poll_method_', '')
+        elif t in kern:
+            keys, clean = {(FD, 'registered_bands')}, 0
+            what = 'has nothing in the kernel set according to the library\'s own record (registered_bands == 0)'
+            inst = 'failed-try:kernel iv_fd_.epoll_event.data.ptr [%s]' % t.replace('iv_fd_poll_method_', '')
+        else:
+            continue
+        g = h03.inline(prog, f, method_table=t, expand_methods=True, prune=True)
+        objs = h03.object_vars(g, f)
+        if not objs:
+            raise AnalysisBroken('%s: no descriptor parameter' % f.name)
+        res = h03.failure_traces(g, objs, keys, clean, unknown)
+        if not res:
+            raise AnalysisBroken('%s [%s]: no return reached' % (f.name, t))
+        fails = [(e, v, cl) for (e, v, cl) in res if v != 'Z']
+        bad = [(e, v, cl) for (e, v, cl) in fails if not cl]
+        n += 1
+        e0 = bad[0][0] if bad else None
+        ctx.ob('R-C03h', inst, bool(fails) and not bad, loc=e0['loc'] if e0 else f.loc,
+               detail=('a return that can deliver a failure (%s) is reachable while the descriptor still holds what was entered for it: '
+                       'required is that it %s' % (describe(e0), what)) if bad else
+                      ('no return of %s can deliver a non-zero result: the failure of the validity probe is not reported' % f.name) if not fails else
+                      'at each of the %d return state(s) with a non-zero result the descriptor %s' % (len(fails), what),
+               path=path_to(g, e0) if e0 else None, fn=f.q)
+    if n < 2:
+        raise AnalysisBroken('try-registration: no poll method with a descriptor array or a kernel set found')
